@@ -2,7 +2,7 @@
 
 CFG = {'module': 'Dnp3.Props.C12',
  'gen': [],
- 'engines': ['outstation'],
+ 'engines': ['outstation', 'outstationdb'],
  'monitors': ['solicited_uns_clear',
               'solicited_correlated',
               'series_consecutive',
@@ -12,7 +12,8 @@ CFG = {'module': 'Dnp3.Props.C12',
               'silent_functions',
               'rejection_flagged',
               'no_panic',
-              'no_stall'],
+              'no_stall',
+              'resend_is_earlier_fragment'],
  'rule': 'engine outstation: session histories (3-40 ops) from a weighted grammar over every function code '
          'the outstation executes (+ unknown codes, response codes, bad control flags, truncated fragments), '
          'valid and malformed object headers, byte-identical repeats, solicited/unsolicited confirms with '
@@ -20,13 +21,21 @@ CFG = {'module': 'Dnp3.Props.C12',
          'broadcasts of all three modes, foreign masters, self address, disconnects; configurations over tx '
          'sizes 249..2048, unsolicited on/off, retry limits none/0/1/3, any-master, broadcast, max-controls. '
          'Each history runs the real task and the model; monitors evaluate the property predicates on the '
-         "implementation's trace with an independent decoder.",
+         "implementation's trace with an independent decoder. engine outstationdb: the same session grammar "
+         'over a populated database (binary and analog points in classes 0-3, event buffers of 1-20 per '
+         'type, big databases forcing multi-fragment READ series), update transactions interleaved at every '
+         'point, READs by class / type / range / variation / count, unsolicited series, confirms right / '
+         'wrong / late / missing, timeouts, aborting requests, ENABLE/DISABLE_UNSOLICITED, disconnects; an '
+         'event ledger (recorded / carried / released) and a mirrored reference database are kept by the '
+         'monitors. ',
  'trusted_base': ['hand-written Lean model of outstation/session.rs (+ control/select.rs, '
                   'control/collection.rs, deferred.rs, transport/reader.rs pop_request) tied by differential '
                   'execution of the REAL OutstationTask (real link layer, transport, parser, session, '
                   'database) over an in-memory pipe on a paused clock',
                   'application / control-handler callbacks are scripted identically on both sides',
-                  'database component behind the `Db` interface (event buffer / static database)'],
+                  'hand-written Lean model of outstation/database/** (event buffer, static database, '
+                  'response writers) tied by differential execution of the real Database (engine db) and of '
+                  'the real OutstationTask (engine outstationdb)'],
  'assumptions': ['tokio timer and Notify semantics; xxh64 collision-free on compared fragments (model '
                  'compares octets)'],
  'level_text': 'Lean theorems over the session model (shape and correlation of every transmitted fragment, '
